@@ -759,7 +759,8 @@ func (c *compiler) compileReturnStatement(v *ast.ReturnStatement) {
 
 func (c *compiler) checkVarConflict(name unistring.String, offset int) {
 	for sc := c.scope; sc != nil; sc = sc.outer {
-		if b, exists := sc.boundNames[name]; exists && !b.isVar && !(b.isArg && sc != c.scope) {
+		// (a non-strict const binding is the own name of a named function expression: a var may shadow it)
+		if b, exists := sc.boundNames[name]; exists && !b.isVar && !(b.isArg && sc != c.scope) && !(b.isConst && !b.isStrict) {
 			c.throwSyntaxErrorf(offset, "Identifier '%s' has already been declared", name)
 		}
 		if sc.isFunction() {
